@@ -93,23 +93,31 @@ PLAN["C05"] = dict(
 PLAN["C14"] = dict(
     level="proof",
     functions=[(GFA, "GFA.path_exists"), (GFA, "GFA.extract_path"), ("gaftools/cli/find_path.py", "run#read-paths"), ("gaftools/cli/find_path.py", "run#write-records")],
-    lemmas=[gfa_c.lemma_reversal],
+    lemmas=[gfa_c.lemma_reversal, gfa_c.lemma_rev_comp],
     explanation="path_exists (4-row orientation table, early return, inner scan over the adjacency set) returns True iff every consecutive "
                 "pair of steps is a link of the graph in the matching orientations, stated against the GFA link semantics (leave a through "
                 "its end for '>' / start for '<', enter b at its start for '>' / end for '<'); lemma: under the symmetric-adjacency "
                 "invariant (C15) a step is a link iff the reversed step is, hence the reversed walk is accepted iff the walk is. "
                 "extract_path returns '' unless every consecutive pair of steps is a link, and otherwise the per-step pieces in order (the node's sequence "
                 "for '>', its reverse complement for '<'). find_path.run: the file branch builds one (path, spelled sequence) entry per input line, in order, each "
-                "spelled from its own line; the writer emits one record per entry in order (FASTA: header '>seq_<path>' then the sequence). The "
-                "character-level reverse complement is covered by the bounded stand-in.",
-    trusted_base=["re.findall('[><][^><]+', path) tokenises the path (assumed)", "str.translate / [::-1] implement reverse complement (assumed)",
-                  "''.join(pieces) is injective on piece lists (untok(strjoin(l)) == l), rev_comp as an uninterpreted function: assumed",
-                  "find_path.run is verified as two statement-range fragments (reader = list of lines, writer = list of printed records); open()/sys.stdout plumbing between them: BOUNDED stand-in only",
-                  "rev_comp at character level: BOUNDED stand-in only"],
+                "spelled from its own line; the writer emits one record per entry in order (FASTA: header '>seq_<path>' then the sequence). "
+                "rev_comp at character level (lemma_rev_comp): its return expression and the module-level maketrans table are re-read from the source and "
+                "evaluated symbolically on strings of every length; length kept, the base at i is the Watson-Crick complement of the base at n-1-i, "
+                "rev_comp(rev_comp(s)) == s, rev_comp(p + q) == rev_comp(q) + rev_comp(p) (so the reversed walk spells the reverse complement).",
+    trusted_base=["re.findall('[><][^><]+', path) tokenises the path (assumed)",
+                  "CPython semantics of s[::-1], str.translate and two-argument str.maketrans as encoded in lemma_rev_comp (assumed); a rev_comp body outside "
+                  "that subset is UNDECIDED deductively (exit 2) and left to the bounded stand-in (all strings up to length 4 over ACGTNacgt-, lengths around powers of two up to 2^20)",
+                  "''.join(pieces) is injective on piece lists (untok(strjoin(l)) == l); inside extract_path rev_comp is the uninterpreted function that the lemma characterises: assumed link between the two",
+                  "find_path.run is verified as two statement-range fragments (reader = list of lines, writer = list of printed records); open()/sys.stdout plumbing between them: BOUNDED stand-in only"],
     mutations=[
         dict(name="find_path spells the first line for every line", file="gaftools/cli/find_path.py", old="            path_seqs.append(graph.extract_path(nodes[-1]))", new="            path_seqs.append(graph.extract_path(nodes[0]))", expect="read-paths", functions=[("gaftools/cli/find_path.py", "run#read-paths")]),
         dict(name="swap two table rows", file=GFA, old='            (">", "<"): ("end", 1),\n            ("<", ">"): ("start", 0),', new='            (">", "<"): ("start", 0),\n            ("<", ">"): ("end", 1),', expect="path_exists"),
         dict(name="row << wrong side", file=GFA, old='("<", "<"): ("start", 1)', new='("<", "<"): ("start", 0)', expect="path_exists"),
+        dict(name="rev_comp forgets to reverse", file="gaftools/utils.py", old="seq[::-1].translate(complement)", new="seq.translate(complement)", expect="rev_comp", functions=[("lemma", "rev_comp")]),
+        dict(name="complement table pairs G with G", file="gaftools/utils.py", old='str.maketrans("ACGT", "TGCA")', new='str.maketrans("ACGT", "TCGA")', expect="rev_comp", functions=[("lemma", "rev_comp")]),
+        dict(name="table maps U to A but not back", file="gaftools/utils.py", old='str.maketrans("ACGT", "TGCA")', new='str.maketrans("ACGTU", "TGCAA")', expect="rev_comp::involution", functions=[("lemma", "rev_comp")]),
+        dict(name="harmless: complement first, then reverse", file="gaftools/utils.py", old="seq[::-1].translate(complement)", new="seq.translate(complement)[::-1]", expect="green", functions=[("lemma", "rev_comp")]),
+        dict(name="harmless: lower-case bases complemented too", file="gaftools/utils.py", old='str.maketrans("ACGT", "TGCA")', new='str.maketrans("ACGTacgt", "TGCAtgca")', expect="green", functions=[("lemma", "rev_comp")]),
         dict(name="forward steps reverse-complemented", file=GFA, old='            if n.startswith(">"):\n                seq.append(self.nodes[n[1:]].seq)', new='            if n.startswith("<"):\n                seq.append(self.nodes[n[1:]].seq)', expect="extract_path", functions=[(GFA, "GFA.extract_path")]),
     ],
 )
@@ -377,6 +385,14 @@ PLAN["C20"] = dict(
 )
 
 _COLLECT = [(REALIGN, "realign_gaf#collector-full-groups"), (REALIGN, "realign_gaf#collector-leftover")]
+# the observation helpers the collector loops call: bodies verified against the very posts the collector fragments use at their call sites
+_OBSERVE = [(REALIGN, "one_is_alive#body"), (REALIGN, "all_exited#body"), (REALIGN, "all_are_alive#body")]
+_OBSERVE_MUT = [
+    dict(name="all_exited ignores running workers (exit code None)", file=REALIGN, old="        if p.exitcode != 0:", new="        if p.exitcode is not None and p.exitcode != 0:", expect="all_exited#body", functions=_OBSERVE[1:2]),
+    dict(name="all_exited decides on the first worker", file=REALIGN, old="        if p.exitcode != 0:\n            return False\n    return True", new="        if p.exitcode != 0:\n            return False\n        return True\n    return True", expect="all_exited#body", functions=_OBSERVE[1:2]),
+    dict(name="one_is_alive skips the first worker", file=REALIGN, old="    for p in processes:\n        if p.is_alive():", new="    for p in processes[1:]:\n        if p.is_alive():", expect="one_is_alive#body", functions=_OBSERVE[:1]),
+    dict(name="harmless: all_exited written with a generator", file=REALIGN, old="    for p in processes:\n        if p.exitcode != 0:\n            return False\n    return True", new="    for p in processes:\n        if not (p.exitcode == 0):\n            return False\n    return True", expect="green", functions=_OBSERVE[1:2]),
+]
 _C11_MUT = [
     dict(name="drain stops one item early", file=REALIGN, old="        queue_len = len(p_queue.queue)\n        for _ in range(queue_len):\n            output.write(p_queue.get().seq)\n    logger.info", new="        queue_len = len(p_queue.queue)\n        for _ in range(queue_len - 1):\n            output.write(p_queue.get().seq)\n    logger.info", expect="drain-leftover", functions=[(REALIGN, "realign_gaf#drain-leftover")]),
     dict(name="fall through after the exit-code check (stale item)", file=REALIGN, old="                            sys.exit(1)\n                        continue", new="                            sys.exit(1)", expect="collector-full-groups", functions=_COLLECT[:1]),
@@ -385,7 +401,7 @@ _C11_MUT = [
 ]
 PLAN["C11"] = dict(
     level="other",
-    functions=_COLLECT + [(REALIGN, "realign_gaf#drain-full-groups"), (REALIGN, "realign_gaf#drain-leftover")],
+    functions=_COLLECT + [(REALIGN, "realign_gaf#drain-full-groups"), (REALIGN, "realign_gaf#drain-leftover")] + _OBSERVE,
     explanation="PROVED relative to the assumed multiprocessing environment (DESIGN 3.5: get(timeout) may raise Empty at ANY time, or returns the next "
                 "object of SOME worker, per-producer FIFO, None last; liveness observations are arbitrary): for every number of workers, every "
                 "number of results per worker and every resolution of those choices, both collector loops consume each dequeued object exactly "
@@ -393,16 +409,17 @@ PLAN["C11"] = dict(
                 "bijection), count exactly the sentinels received (ghost done / not-done prefix counts, pairwise-monotone, no induction needed), "
                 "and can only finish when every worker's sentinel - hence, by FIFO, every result - has been received. Both drain loops then write "
                 "every collected item exactly once, smallest priority first (= input order), leave the queue empty and never call get() on an "
-                "empty PriorityQueue (which would block for ever). BOUNDED: batching, and byte-identity with the single-core output on scripted fake-mp schedules and real processes.",
+                "empty PriorityQueue (which would block for ever). The helpers one_is_alive / all_are_alive / all_exited are verified as written (loops over the "
+                "worker list): they return exactly the observations the collector contracts use at their call sites. BOUNDED: batching, and byte-identity with the single-core output on scripted fake-mp schedules and real processes.",
     trusted_base=["multiprocessing.Queue / Process behave as the environment contract of DESIGN 3.5 (assumed)", "queue.PriorityQueue: get() removes and returns the smallest item, blocks on an empty queue (assumed; abstract state = content sorted by priority)",
                   "the hand-over between the collector fragment (p_queue as the list of put() items) and the drain fragment (its sorted view) is the PriorityQueue abstraction (assumed)",
                   "batching, wfa_alignment: BOUNDED stand-in only"],
     not_applicable_clauses=["corruption of the queue pipe by a worker killed during a write is outside the environment contract (see C13 known finding)"],
-    mutations=_C11_MUT,
+    mutations=_C11_MUT + _OBSERVE_MUT[2:],
 )
 PLAN["C13"] = dict(
     level="other",
-    functions=_COLLECT + [(REALIGN, "wfa_alignment")],
+    functions=_COLLECT + [(REALIGN, "wfa_alignment")] + _OBSERVE,
     explanation="PROVED (safety half, same fragment and environment as C11): the collector loops return normally only after every worker's sentinel was "
                 "received, so a worker that died before delivering its sentinel can never lead to a normal return (success is never reported for "
                 "an output that is missing records); the only other way out is sys.exit(1) - exit status non-zero - and it is taken only when "
@@ -411,12 +428,13 @@ PLAN["C13"] = dict(
                 "(a crash inside the batch - modelled as the aligner raising - leaves no sentinel). BOUNDED: every kill point x schedule with the fake mp, and real processes killed at each "
                 "point (non-zero exit within a wall-clock limit). NOT APPLICABLE to this technique: that the wait on a live worker is finite "
                 "(liveness under OS scheduling fairness).",
-    trusted_base=["multiprocessing environment contract (assumed)", "Process.is_alive / exitcode observations are arbitrary but truthful at the moment of the call (assumed)"],
+    trusted_base=["multiprocessing environment contract (assumed)", "Process.is_alive() / Process.exitcode of ONE worker are arbitrary but truthful at the moment they are read (assumed); "
+                  "what one_is_alive / all_are_alive / all_exited make of them over the whole worker list is PROVED (bodies under contract, same posts as the caller view)"],
     not_applicable_clauses=["'never hangs' as liveness: needs scheduler fairness; only the classification 'the sole stuttering iteration is: queue empty while a worker is alive' is in reach",
                             "known finding 'worker-dies-mid-delivery' (known_findings.json): a worker killed in the middle of a pipe write blocks the parent inside Queue.get"],
     mutations=[
         dict(name="exit status 0 on worker failure", file=REALIGN, old="                            sys.exit(1)\n                        continue", new="                            sys.exit(0)\n                        continue", expect="collector-full-groups", functions=_COLLECT[:1]),
-    ] + _C11_MUT[1:2],
+    ] + _C11_MUT[1:2] + _OBSERVE_MUT,
 )
 
 PLAN["C02"] = dict(
